@@ -24,6 +24,9 @@ def plan(tier, seed):
     return [{"tier": tier, "seed": seed, "shard": i, "n_shards": n, "rounds": rounds} for i in range(n)]
 
 
+FRESH = []
+
+
 def compare(res, key, where, a, b, desc):
     d = snapshot.diff(a, b)
     for path, x, y in d[:3]:
@@ -55,6 +58,8 @@ def check_module(res, c, T):
         res.violation(f"C02:save-raises:{T}:{workload.exc_key(e)}", f"Synth({T}).read() raised {e!r}", desc)
         return
     res.case(raw)
+    if c.index % 4 == 0 and len(raw) < 300000:
+        FRESH.append((raw, build.norm(snapshot.snap_synth(syn), "before"), desc))
     try:
         s2 = workload.load(raw)
     except Exception as e:
@@ -288,6 +293,8 @@ def run_shard(spec_, res):
                 res.violation(f"C02:build-raises:{T}:{workload.exc_key(e)}", f"building {T} raised {e!r}", {"case_seed": spec_["seed"], "index": index, "type": T})
                 continue
             check_module(res, c, T)
+    workload.fresh_process_reload(res, PROPERTY, FRESH)
+    del FRESH[:]
     if spec_["shard"] == 0:
         empty_synth(res)
     if spec_["shard"] == 1:
